@@ -47,7 +47,8 @@ Record res := {
   r_apis : list (list string);(* upstreams pushed through the Plus API, in groups: an API failure
                                  abandons the rest of its group (one group per Ingress/VS/TS,
                                  one group per minion of a mergeable Ingress) *)
-  r_weights : nat             (* number of two-way-split weight updates (DynamicWeightChangesReload) *)
+  r_weights : nat;            (* number of two-way-split weight updates (DynamicWeightChangesReload) *)
+  r_pt : option Z             (* TransportServer on the TLS passthrough listener: identity of its host (None: not passthrough) *)
 }.
 
 Inductive op :=
@@ -87,14 +88,15 @@ Record cst := {
   loaded : smap Z;         (* ghost: the disk at the last successful reload *)
   dirty : bool;            (* ghost: a file NGINX reads changed since the last successful reload *)
   nrel : nat;              (* number of Reload calls made so far (index into ro) *)
-  napi : nat               (* number of API calls made so far (index into ao) *)
+  napi : nat;              (* number of API calls made so far (index into ao) *)
+  pairs : smap Z           (* cnf.tlsPassthroughPairs: TransportServer -> host; tls-passthrough-hosts.conf is generated from it *)
 }.
 
 Definition init : cst :=
-  {| enabled := false; files := []; loaded := []; dirty := false; nrel := 0; napi := 0 |}.
+  {| enabled := false; files := []; loaded := []; dirty := false; nrel := 0; napi := 0; pairs := [] |}.
 
 Definition set_enabled (b : bool) (s : cst) : cst :=
-  {| enabled := b; files := files s; loaded := loaded s; dirty := dirty s; nrel := nrel s; napi := napi s |}.
+  {| enabled := b; files := files s; loaded := loaded s; dirty := dirty s; nrel := nrel s; napi := napi s; pairs := pairs s |}.
 
 (* ---------- primitives ---------- *)
 Definition do_write (k : fk) (name : string) (ver : Z) (s : cst) : cst * list ev :=
@@ -102,24 +104,60 @@ Definition do_write (k : fk) (name : string) (ver : Z) (s : cst) : cst * list ev
   let ch := match lookup key (files s) with Some v => negb (Z.eqb v ver) | None => true end in
   (if ch then {| enabled := enabled s; files := insert key ver (files s);
                  loaded := if needs_reload k then loaded s else insert key ver (loaded s);
-                 dirty := dirty s || needs_reload k; nrel := nrel s; napi := napi s |}
+                 dirty := dirty s || needs_reload k; nrel := nrel s; napi := napi s; pairs := pairs s |}
    else s, [EWrite k name ch]).
 
 Definition do_delete (k : fk) (name : string) (s : cst) : cst * list ev :=
   let key := fkey k name in
   let ex := mem key (files s) in
   (if ex then {| enabled := enabled s; files := remove key (files s); loaded := loaded s;
-                 dirty := true; nrel := nrel s; napi := napi s |}
+                 dirty := true; nrel := nrel s; napi := napi s; pairs := pairs s |}
    else s, [EDelete k name ex]).
+
+Definition set_pairs (p : smap Z) (s : cst) : cst :=
+  {| enabled := enabled s; files := files s; loaded := loaded s; dirty := dirty s; nrel := nrel s; napi := napi s; pairs := p |}.
+
+(* identity of the content of tls-passthrough-hosts.conf, a function of the pairs *)
+Fixpoint strsum (s : string) : Z :=
+  match s with EmptyString => 0 | String c r => (Z.of_nat (Ascii.nat_of_ascii c) + 3 * strsum r)%Z end.
+Definition tls_ver (p : smap Z) : Z :=
+  fold_left (fun acc kv => (acc * 10007 + strsum (fst kv) * 16 + snd kv + 1)%Z) p 0%Z.
+
+(* the tail of addOrUpdateTransportServer / deleteTransportServer: keep the pair of this TransportServer in step
+   and regenerate the hosts map when the pair was set or dropped *)
+Definition do_pt (name : string) (pt : option Z) (s : cst) : cst * list ev :=
+  match pt with
+  | Some h => let p := insert name h (pairs s) in do_write FTls "" (tls_ver p) (set_pairs p s)
+  | None => if mem name (pairs s)
+            then let p := remove name (pairs s) in do_write FTls "" (tls_ver p) (set_pairs p s)
+            else (s, [])
+  end.
+
+(* addOrUpdateIngress / MergeableIngress / VirtualServer / TransportServer: the resource's file, and for a
+   TransportServer the hosts map *)
+Definition do_res (r : res) (s : cst) : cst * list ev :=
+  let '(s1, l1) := do_write (fk_of (r_kind r)) (r_name r) (r_ver r) s in
+  match r_kind r with
+  | KTS => let '(s2, l2) := do_pt (r_name r) (r_pt r) s1 in (s2, l1 ++ l2)
+  | _ => (s1, l1)
+  end.
+
+(* DeleteConfig / deleteTransportServer *)
+Definition do_del (k : fk) (name : string) (s : cst) : cst * list ev :=
+  let '(s1, l1) := do_delete k name s in
+  match k with
+  | FStream => let '(s2, l2) := do_pt name None s1 in (s2, l1 ++ l2)
+  | _ => (s1, l1)
+  end.
 
 (* cnf.Reload: gated by isReloadsEnabled; third component = the call failed *)
 Definition do_reload (e : env) (endp : bool) (s : cst) : cst * list ev * bool :=
   if enabled s then
     let ok := ro e (nrel s) in
     (if ok then {| enabled := true; files := files s; loaded := files s; dirty := false;
-                   nrel := S (nrel s); napi := napi s |}
+                   nrel := S (nrel s); napi := napi s; pairs := pairs s |}
      else {| enabled := true; files := files s; loaded := loaded s; dirty := dirty s;
-             nrel := S (nrel s); napi := napi s |},
+             nrel := S (nrel s); napi := napi s; pairs := pairs s |},
      [EReload endp ok], negb ok)
   else (s, [], false).
 
@@ -131,7 +169,7 @@ Fixpoint do_api_group (e : env) (stream : bool) (ups : list string) (s : cst) : 
       if enabled s then
         let ok := ao e (napi s) in
         let s1 := {| enabled := enabled s; files := files s; loaded := loaded s; dirty := dirty s;
-                     nrel := nrel s; napi := S (napi s) |} in
+                     nrel := nrel s; napi := S (napi s); pairs := pairs s |} in
         if ok then
           let '(s2, l, f) := do_api_group e stream rest s1 in (s2, EApi stream u true :: l, f)
         else (s1, [EApi stream u false], true)
@@ -152,7 +190,7 @@ Fixpoint do_writes (rs : list res) (s : cst) : cst * list ev :=
   match rs with
   | [] => (s, [])
   | r :: rest =>
-      let '(s1, l1) := do_write (fk_of (r_kind r)) (r_name r) (r_ver r) s in
+      let '(s1, l1) := do_res r s in
       let '(s2, l2) := do_writes rest s1 in (s2, l1 ++ l2)
   end.
 
@@ -163,7 +201,7 @@ Fixpoint do_deletes (k : fk) (names : list string) (s : cst) : cst * list ev :=
   match names with
   | [] => (s, [])
   | n :: rest =>
-      let '(s1, l1) := do_delete k n s in
+      let '(s1, l1) := do_del k n s in
       let '(s2, l2) := do_deletes k rest s1 in (s2, l1 ++ l2)
   end.
 
@@ -172,7 +210,7 @@ Fixpoint endp_loop (e : env) (rs : list res) (s : cst) : cst * list ev * bool :=
   match rs with
   | [] => (s, [], false)
   | r :: rest =>
-      let '(s1, l1) := do_write (fk_of (r_kind r)) (r_name r) (r_ver r) s in
+      let '(s1, l1) := do_res r s in
       let '(s2, l2, f2) := if plus e then do_api_groups e (is_stream (r_kind r)) (r_apis r) s1
                            else (s1, [], false) in
       let '(s3, l3, f3) := endp_loop e rest s2 in
@@ -193,7 +231,7 @@ Definition finish_reload (e : env) (endp : bool) (s : cst) (l : list ev) : cst *
 Definition step (e : env) (s : cst) (o : op) : cst * out :=
   match o with
   | OAdd r =>
-      let '(s1, l1) := do_write (fk_of (r_kind r)) (r_name r) (r_ver r) s in
+      let '(s1, l1) := do_res r s in
       (* AddOrUpdateVirtualServer: if len(weightUpdates) > 0 { cnf.EnableReloads() } *)
       let s2 := match r_kind r with
                 | KVS => if (0 <? r_weights r)%nat && negb (fx_weights (fx e)) then set_enabled true s1 else s1
@@ -207,7 +245,7 @@ Definition step (e : env) (s : cst) (o : op) : cst * out :=
       if existsb ev_changed l1 || always then finish_reload e false s1 l1
       else (s1, {| log := l1; oerr := ENone |})
   | ODelete k name skip =>
-      let '(s1, l1) := do_delete (fk_of k) name s in
+      let '(s1, l1) := do_del (fk_of k) name s in
       if match k with KTS => false | _ => skip end then (s1, {| log := l1; oerr := ENone |})
       else finish_reload e false s1 l1
   | OEndpoints _ rs =>
